@@ -261,7 +261,7 @@ def repo_builds_normally():
 DRIVER = os.path.join(LEAN, '.lake', 'build', 'bin', 'cudrv')
 
 
-def run_chunk(exe, text, keep_trace=False, timeout=600):
+def run_chunk(exe, text, keep_trace=False, timeout=1200):
     """harness | driver on one chunk of scenario text. Returns (res_lines, stats, trace_text)."""
     try:
         h = subprocess.run([exe], input=text, capture_output=True, text=True, timeout=timeout)
